@@ -67,8 +67,13 @@ func startDeployment(cfg Cfg, port int) *deployment {
 		h2 = mk(d.l2, "std")
 	}
 	if cfg.Lock != "none" {
-		d.slot = lockedConsts(cfg.Lock == "multi", cfg.Conc)
-		oc = orcas.LockedWithExisting(oc, d.slot)
+		var main orcas.OrcaConst
+		main, d.slot = lockedMain(cfg.Orca, cfg.Lock == "multi", cfg.Conc)
+		if port == 1 {
+			oc = orcas.LockedWithExisting(oc, d.slot)
+		} else {
+			oc = main
+		}
 	}
 	go server.ListenAndServe(func() (server.Listener, error) { return d.l, nil },
 		[]protocol.Components{binprot.Components, textprot.Components}, server.Default, oc, h1, h2)
@@ -171,9 +176,19 @@ func runC15(c *rt.Ctx) {
 						}
 						dc := disconnectCase{Cfg: wk.cfg, Port: wk.port, Stream: stream, Cut: cut, Tag: tag}
 						c.Crumb("tag="+tag, dc)
-						clause, detail := d.runDisconnect(proto, stream, cut)
+						clause, detail := d.runDisconnect(proto, stream, cut, false)
 						c.Eval(1)
 						c.Trace(1)
+						if clause == "" {
+							// the same disconnect while a second client, accepted after this one,
+							// is connected: only this client's resources may be released
+							clause, detail = d.runDisconnect(proto, stream, cut, true)
+							c.Eval(1)
+							c.Trace(1)
+							if clause != "" {
+								clause += "/with-second-client"
+							}
+						}
 						key := fmt.Sprintf("%s|%d|%s|%d", wk.cfg, wk.port, tag, cut)
 						c.Distinct(key)
 						if cut > 0 && cut < len(stream) {
@@ -205,7 +220,7 @@ func runC15(c *rt.Ctx) {
 
 // runDisconnect connects, sends the first cut bytes, closes, and checks that everything held for
 // the connection is released; then a fresh client must be served normally.
-func (d *deployment) runDisconnect(proto string, stream []byte, cut int) (clause, detail string) {
+func (d *deployment) runDisconnect(proto string, stream []byte, cut int, overlap bool) (clause, detail string) {
 	synctest.Wait()
 	base := runtime.NumGoroutine()
 	d.mu.Lock()
@@ -214,6 +229,15 @@ func (d *deployment) runDisconnect(proto string, stream []byte, cut int) (clause
 	cli := NewClient()
 	d.l.conns <- cli
 	synctest.Wait()
+	d.mu.Lock()
+	mine := len(d.conns) - from // backend connections opened for this client
+	d.mu.Unlock()
+	var other *Client
+	if overlap {
+		other = NewClient()
+		d.l.conns <- other
+		synctest.Wait()
+	}
 	if cut > 0 {
 		// two segments when possible so that the server has to resume a partial read
 		if cut > 3 {
@@ -227,6 +251,44 @@ func (d *deployment) runDisconnect(proto string, stream []byte, cut int) (clause
 	}
 	cli.End()
 	synctest.Wait()
+	if overlap {
+		// this client's backend connections are closed, the other client's are not
+		d.mu.Lock()
+		var leftOpen, wronglyClosed []string
+		for i, bc := range d.conns[from:] {
+			if i < mine && !bc.LocalClosed {
+				leftOpen = append(leftOpen, bc.Name)
+			}
+			if i >= mine && bc.LocalClosed {
+				wronglyClosed = append(wronglyClosed, bc.Name)
+			}
+		}
+		d.mu.Unlock()
+		if len(leftOpen) > 0 {
+			return "backend-conn-left-open", fmt.Sprintf("backend connections opened for the disconnected client and not closed: %v", leftOpen)
+		}
+		if len(wronglyClosed) > 0 || other.Closed() {
+			return "other-client-disturbed", fmt.Sprintf("the disconnect of one client closed resources of another: backend conns %v, its client conn closed=%v", wronglyClosed, other.Closed())
+		}
+		ops := []wire.Op{{Kind: "set", Key: "o", Val: "other", Flags: 3, Opaque: 0x700}, {Kind: "get", Key: "o", Opaque: 0x710}}
+		var b []byte
+		for _, o := range ops {
+			b = append(b, wire.Encode(proto, o)...)
+		}
+		other.Feed(b)
+		synctest.Wait()
+		var reps []wire.Reply
+		if proto == "text" {
+			reps, _ = wire.DecodeText(other.Out, ops)
+		} else {
+			reps, _, _ = wire.DecodeBinary(other.Out, ops)
+		}
+		other.End()
+		synctest.Wait()
+		if reps[0].Class != "ok" || reps[1].Class != "values" || len(reps[1].Hits) != 1 || reps[1].Hits[0].Val != "other" {
+			return "other-client-disturbed", fmt.Sprintf("the client that stayed connected got %s | %s", reps[0].Canon(), reps[1].Canon())
+		}
+	}
 	if open := d.openBackendConns(from); len(open) > 0 {
 		return "backend-conn-left-open", fmt.Sprintf("backend connections opened for the client and not closed: %v", open)
 	}
